@@ -1,0 +1,49 @@
+//go:build verif
+
+package stack
+
+// Contracts for the deductive verifier in /verif (gvc). Comment-only; compiled only with -tags verif.
+// View of a Stack: the sequence s.items[0..len), top at the end.
+
+//@ func stack.New
+//@   property C06
+//@   ensures result != nil && fresh(result) && len(result.items) == 0
+
+//@ func (*stack.Stack).size
+//@   property C06
+//@   inline
+
+//@ func (*stack.Stack).Push
+//@   property C06 C01 C02
+//@   lock s.mu : none
+//@   modifies s.items, elems(s.items)
+//@   ensures len(s.items) == old(len(s.items)) + 1
+//@   ensures forall k int :: 0 <= k && k < old(len(s.items)) ==> s.items[k] == old(s.items[k])
+//@   ensures s.items[old(len(s.items))] == item
+
+//@ func (*stack.Stack).Pop
+//@   property C06 C01 C02
+//@   lock s.mu : none
+//@   modifies s.items
+//@   ensures old(len(s.items)) == 0 ==> item == zero && s.items == old(s.items)
+//@   ensures old(len(s.items)) > 0 ==> item == old(s.items[len(s.items)-1]) && len(s.items) == old(len(s.items)) - 1
+//@   ensures old(len(s.items)) > 0 ==> forall k int :: 0 <= k && k < len(s.items) ==> s.items[k] == old(s.items[k])
+
+//@ func (*stack.Stack).Peek
+//@   property C06 C01 C02
+//@   lock s.mu : none
+//@   ensures len(s.items) == 0 ==> item == zero
+//@   ensures len(s.items) > 0 ==> item == s.items[len(s.items)-1]
+
+//@ func (*stack.Stack).Search
+//@   property C06 C01 C02
+//@   lock s.mu : none
+//@   ensures result <==> exists k int :: 0 <= k && k < len(s.items) && s.items[k] == item
+//@ loop 1
+//@   invariant 0 <= i
+//@   invariant forall k int :: 0 <= k && k < i ==> s.items[k] != item
+
+//@ func (*stack.Stack).Size
+//@   property C06 C01 C02
+//@   lock s.mu : none
+//@   ensures result == len(s.items) && result >= 0
